@@ -455,7 +455,7 @@ def build_program_cases(R, quick):
         cases.append(dict(text=text, goals=goals, shape="benchmark:" + b, expect="value"))
     fixed_mix = ("y = 0\nwhile true:\n    u = Normal(0, 1)\n    s = Sin(u)\n    f = Exp(u)\n    y = s*f\nend\n")
     cases.append(dict(text=fixed_mix, goals=[[["y", 1]]], shape="mix", expect="mix"))
-    n_gen = 42 if quick else 420
+    n_gen = 51 if quick else 425
     shapes = list(L.SHAPES)
     for i in range(n_gen):
         shape = shapes[i % len(shapes)]
